@@ -9,7 +9,7 @@ let string_of_hex s = string_of_bytes (List.map n_of_int (hex_decode s))
 let starts_with s p = String.length s >= String.length p && String.sub s 0 (String.length p) = p
 let ends_with s p = String.length s >= String.length p && String.sub s (String.length s - String.length p) (String.length p) = p
 
-type doc_d = { cram : bool; bad : bool; tests : string; sub : string; name : string }
+type doc_d = { cram : bool; bad : bool; linked : bool; tests : string; sub : string; name : string }
 type proc_d = { flag : char; shared : bool; abort : char; docs : doc_d list }
 
 let parse_proc (s : string) : proc_d =
@@ -20,8 +20,10 @@ let parse_proc (s : string) : proc_d =
           | [t; sub; name] ->
             let cram = t.[0] = 'c' in
             let bad = String.length t > 1 && t.[1] = '!' in
-            let tests = String.sub t (if bad then 2 else 1) (String.length t - (if bad then 2 else 1)) in
-            { cram; bad; tests; sub = string_of_hex sub; name = string_of_hex name }
+            let linked = String.length t > 1 && t.[1] = '@' in   (* the document is a symbolic link to a file elsewhere, under another name *)
+            let k = if bad || linked then 2 else 1 in
+            let tests = String.sub t k (String.length t - k) in
+            { cram; bad; linked; tests; sub = string_of_hex sub; name = string_of_hex name }
           | _ -> failwith "doc") (split_on ',' ds) }
   | _ -> failwith "proc"
 
@@ -56,7 +58,7 @@ let run () = iter_lines (fun line ->
       let flag = (List.hd procs).flag in
       bump (Printf.sprintf "flag:%c%s/processes:%d" flag (if (List.hd procs).shared then "(shared)" else "") (List.length procs));
       List.iter (fun p -> bump (Printf.sprintf "abort:%c" p.abort); List.iter (fun d ->
-          bump (if d.cram then "doc:cram" else "doc:markdown"); if d.bad then bump "doc:unparsable-include";
+          bump (if d.cram then "doc:cram" else "doc:markdown"); if d.bad then bump "doc:unparsable-include"; if d.linked then bump "doc:symbolic-link";
           String.iter (fun c -> bump (Printf.sprintf "test:%c" c)) d.tests) p.docs) procs;
       let names = List.concat_map (fun p -> List.map (fun d -> d.name) p.docs) procs in
       if List.length (List.sort_uniq compare names) < List.length names then bump "identical-file-names";
